@@ -47,14 +47,18 @@ theorem grid_window (c : ℚ) (s order k0 : Int) (hgrid : c - ((s : ℚ) - 1) / 
     let w := prepareAffineAxis c s order
     (w.1 = k0 - order - 1 ∨ (w.1 = k0 - order ∧ w.1 ≤ 0)) ∧
     w.2.2 - prepareAffineOutputCenter s = ((k0 - w.1 : Int) : ℚ) := by
-  simp only [prepareAffineAxis, prepareAffineOutputCenter]
+  intro w
+  have e0 : w.1 = Py.trunc (c - (s : ℚ) / 2 - (order : ℚ)) := paa_x0 c s order
+  have e2 : w.2.2 = c - ((w.1 : Int) : ℚ) := paa_newc c s order
+  have eo : prepareAffineOutputCenter s = ((s : ℚ) - 1) / 2 := output_center s
   have hq : c - (s : ℚ) / 2 - (order : ℚ) = ((k0 - order : Int) : ℚ) - 1 / 2 := by push_cast; linarith
-  rw [hq]
-  generalize k0 - order = m
+  rw [hq] at e0
+  generalize hm : k0 - order = m at e0
   have t1 := Py.trunc_gt (((m : Int) : ℚ) - 1 / 2)
   have t2 := Py.trunc_lt (((m : Int) : ℚ) - 1 / 2)
   have t3 := Py.trunc_le_max (((m : Int) : ℚ) - 1 / 2)
-  generalize Py.trunc (((m : Int) : ℚ) - 1 / 2) = x at *
+  rw [← e0] at t1 t2 t3
+  generalize w.1 = x at *
   have a1 : ((m : ℚ) - 2 : ℚ) < (x : ℚ) := by linarith
   have a2 : (x : ℚ) < (m : ℚ) + 1 := by linarith
   have b1 : m - 2 < x := by exact_mod_cast a1
@@ -68,7 +72,7 @@ theorem grid_window (c : ℚ) (s order k0 : Int) (hgrid : c - ((s : ℚ) - 1) / 
     · by_cases hx : x = m - 1
       · left; omega
       · right; constructor <;> omega
-  · push_cast; linarith
+  · rw [e2, eo]; push_cast; linarith
 
 /-- **Array-level rule for the identity orientation on the grid.** -/
 theorem loadAxis_spec (tomo : List ℚ) (c : ℚ) (s order k0 : Int) (hs : 1 ≤ s) (ho : 0 ≤ order)
